@@ -313,7 +313,11 @@ class ConnRun:
             req = getattr(api_pb2, REQ_FOR_CALL[id_])()
             A, B, D = (getattr(api_pb2, KIND_CLASS[k]) for k in ("A", "B", "done"))
             if mode == "single":
-                coro = conn.send_messages_await_response_complex((req,), None, None, (B,), 10.0)
+                # the single-response API most callers use (it unpacks exactly one response)
+                async def single():
+                    return [await conn.send_message_await_response(req, B, timeout=10.0)]
+
+                coro = single()
             elif mode == "list":
                 coro = conn.send_messages_await_response_complex((req,), lambda m: type(m) is not D, lambda m: type(m) is D, (A, D), 10.0)
             else:
